@@ -321,6 +321,21 @@ def numeric(rng, tier):
                 a3 = pp.metric.rpe(stamps, ref, jit.clone(), est, etype=et, align=True); b3 = pp.metric.rpe(stamps, ref, jit.clone(), G @ est, etype=et, align=True); evals += 2
                 if abs(float(a3['RMSE']) - float(b3['RMSE'])) > 1e-6 * (1 + float(a3['RMSE'])):
                     fails.append(dict(clause='rpe_align_invariance', signature=f'rigid/{et}', a=float(a3['RMSE']), b=float(b3['RMSE'])))
+        # float32 poses (the default dtype) with float64 EPOCH time stamps (1.3e9 s, 10 Hz): stamps are matched in float64 - identical
+        # trajectories have zero error, and the aligned error of a noisy copy is that of the same data with small stamps
+        if t % 3 == 0 and n >= 4:
+            ep = 1311868163.0 + 0.1 * torch.arange(n, dtype=d) + (torch.rand(n, dtype=d) - 0.5) * 1e-3
+            small = ep - 1311868163.0
+            r32 = pp.SE3(ref.tensor().float()); e32 = pp.SE3(est.tensor().float())
+            for nm_, fn_ in (('ape', lambda st_, a_, b_: pp.metric.ape(st_, a_, st_.clone(), b_, etype='translation')), ('rpe', lambda st_, a_, b_: pp.metric.rpe(st_, a_, st_.clone(), b_))):
+                try:
+                    z0 = fn_(ep, r32, r32); zs = fn_(ep, r32, e32); zr = fn_(small, r32, e32); evals += 3
+                    if float(z0['Max']) > 1e-4:
+                        fails.append(dict(clause=f'{nm_}_zero_on_identical', signature='float32 poses, float64 epoch stamps', max=float(z0['Max'])))
+                    if abs(float(zs['RMSE']) - float(zr['RMSE'])) > 1e-3 * (1 + float(zr['RMSE'])):
+                        fails.append(dict(clause=f'{nm_}_independent_of_the_time_origin', signature='float32 poses, float64 epoch stamps', a=float(zs['RMSE']), b=float(zr['RMSE'])))
+                except Exception as e:
+                    fails.append(dict(clause=f'{nm_}_raises', signature='float32 poses, float64 epoch stamps', error=f'{type(e).__name__}: {e}'[:160]))
         # planar trajectories (a ground robot: z = 0, rotations about z): the cross-covariance of the alignment has rank 2 and its SVD lands in
         # the reflection case for about half of the rigid placements of the estimate - the aligned errors must not depend on the placement
         if n >= 4:
